@@ -18,6 +18,7 @@
 // bounds: - (no aggregation config) | <int>,<int>… (HistogramAggregationConfig::boundaries_); a histogram stream prints a=hist[:b1:b2…]@<bucket index>
 // matcher: name | ver | schema | any | prefix
 #include "common.h"
+#include "metrics_factories.h"
 #include "opentelemetry/sdk/logs/logger_context_factory.h"
 #include "opentelemetry/sdk/logs/logger_provider_factory.h"
 #include "opentelemetry/sdk/trace/tracer_context_factory.h"
@@ -38,7 +39,14 @@
 #include "opentelemetry/sdk/logs/processor.h"
 #include "opentelemetry/sdk/logs/read_write_log_record.h"
 #include "opentelemetry/sdk/metrics/instrument_metadata_validator.h"
+#include "opentelemetry/sdk/metrics/meter_context.h"
+#include "opentelemetry/sdk/metrics/meter_context_factory.h"
 #include "opentelemetry/sdk/metrics/meter_provider.h"
+#include "opentelemetry/sdk/metrics/meter_provider_factory.h"
+#include "opentelemetry/sdk/metrics/view/instrument_selector_factory.h"
+#include "opentelemetry/sdk/metrics/view/meter_selector_factory.h"
+#include "opentelemetry/sdk/metrics/view/view_factory.h"
+#include "opentelemetry/sdk/metrics/view/view_registry_factory.h"
 #include "opentelemetry/sdk/metrics/metric_reader.h"
 #include "opentelemetry/sdk/metrics/view/attributes_processor.h"
 #include "opentelemetry/sdk/metrics/view/instrument_selector.h"
@@ -144,6 +152,9 @@ static long value_of(const sm::ValueType &v)
   return static_cast<long>(nostd::get<double>(v));
 }
 
+// the MeterProvider, its context, registry, views and selectors are built through the constructors or the *Factory::Create
+// overloads, chosen by a hash of the case text (metrics_factories.h): views, resource and scope configurator must reach the
+// meters through every one of them
 static std::string handle_mv(const std::vector<std::string> &t)
 {
   auto ops = vh::split_ops(t, 1);
@@ -153,7 +164,19 @@ static std::string handle_mv(const std::vector<std::string> &t)
   if (ops[0][4] != "0" && ops[0][4] != "1") return "bad-op";
   bool enabled = ops[0][4] == "1";
 
-  std::unique_ptr<sm::ViewRegistry> views(new sm::ViewRegistry());
+  // which entry points build the configuration depends on the case (number of operations): the provider constructor /
+  // factory, and whether the views go into a ViewRegistry handed to the provider or are added with MeterProvider::AddView
+  // afterwards (before any instrument exists), built directly or through the *Factory::Create functions
+  const uint64_t how    = vhm::case_hash(t);
+  const bool late_views = vhm::mix(how, 2) % 2 == 1;
+  std::unique_ptr<sm::ViewRegistry> views = vhm::make_registry(how);
+  struct PendingView
+  {
+    std::unique_ptr<sm::InstrumentSelector> isel;
+    std::unique_ptr<sm::MeterSelector> msel;
+    std::unique_ptr<sm::View> view;
+  };
+  std::vector<PendingView> pending;
   struct InstrReq
   {
     sm::InstrumentType type;
@@ -208,10 +231,14 @@ static std::string handle_mv(const std::vector<std::string> &t)
       }
       try
       {
-        std::unique_ptr<sm::InstrumentSelector> isel(new sm::InstrumentSelector(it, pat, unit));
-        std::unique_ptr<sm::MeterSelector> msel(new sm::MeterSelector(smn, smv, sms));
-        std::unique_ptr<sm::View> view(new sm::View(vname, vdesc, vunit, agg, config, std::move(proc)));
-        views->AddView(std::move(isel), std::move(msel), std::move(view));
+        // an attributes processor that keeps everything may also be left to the View's default
+        if (op[11] == "*" && vhm::mix(how, 400 + k) % 2) proc.reset();
+        PendingView pv;
+        pv.isel = vhm::make_isel(vhm::mix(how, 100 + k), it, pat, unit);
+        pv.msel = vhm::make_msel(vhm::mix(how, 200 + k), smn, smv, sms);
+        pv.view = vhm::make_view(vhm::mix(how, 300 + k), vname, vdesc, vunit, agg, config, std::move(proc));
+        if (late_views) pending.push_back(std::move(pv));
+        else views->AddView(std::move(pv.isel), std::move(pv.msel), std::move(pv.view));
       }
       catch (const std::exception &)
       {
@@ -243,7 +270,8 @@ static std::string handle_mv(const std::vector<std::string> &t)
   auto resource = res::Resource::Create({});
   std::unique_ptr<scope_ns::ScopeConfigurator<sm::MeterConfig>> conf(new scope_ns::ScopeConfigurator<sm::MeterConfig>(
       scope_ns::ScopeConfigurator<sm::MeterConfig>::Builder(enabled ? sm::MeterConfig::Enabled() : sm::MeterConfig::Disabled()).Build()));
-  auto provider = std::make_shared<sm::MeterProvider>(std::move(views), resource, std::move(conf));
+  auto provider = vhm::make_provider(how, std::move(views), &resource, std::move(conf)).provider;
+  for (auto &pv : pending) provider->AddView(std::move(pv.isel), std::move(pv.msel), std::move(pv.view));
   auto reader   = std::make_shared<ExplicitReader>();
   provider->AddMetricReader(reader);
   nostd::shared_ptr<mapi::Meter> meter;
@@ -544,7 +572,8 @@ static std::string handle_sc(const std::vector<std::string> &t)
       nostd::shared_ptr<opentelemetry::trace::Tracer> tr;
       {
         vh::Exact n(reqs[k].name), v(reqs[k].ver), s(reqs[k].schema);
-        tr = provider.GetTracer(sv(n), sv(v), sv(s));
+        // an empty scope name is also handed over as a string_view without a buffer (data() == nullptr), every other time
+        tr = provider.GetTracer(reqs[k].name.empty() && k % 2 == 1 ? nostd::string_view() : sv(n), sv(v), sv(s));
       }
       keep.push_back(tr);
       size_t before = captured.size();
@@ -598,7 +627,7 @@ static std::string handle_sc(const std::vector<std::string> &t)
         vh::Exact n(reqs[k].name), v(reqs[k].ver), s(reqs[k].schema), ln(reqs[k].lname);
         std::map<std::string, std::string> attrs(reqs[k].attrs.begin(), reqs[k].attrs.end());
         KeyValueIterableView<std::map<std::string, std::string>> av(attrs);
-        lg = provider.GetLogger(sv(ln), sv(n), sv(v), sv(s), av);
+        lg = provider.GetLogger(sv(ln), reqs[k].name.empty() && k % 2 == 1 ? nostd::string_view() : sv(n), sv(v), sv(s), av);
       }
       keep.push_back(lg);
       size_t before = captured.size();
@@ -616,8 +645,8 @@ static std::string handle_sc(const std::vector<std::string> &t)
   }
   // meters
   {
-    auto provider = std::make_shared<sm::MeterProvider>(std::unique_ptr<sm::ViewRegistry>(new sm::ViewRegistry()), resource,
-                                                        build_conf<sm::MeterConfig>(rules, def));
+    const uint64_t how = vhm::case_hash(t);
+    auto provider      = vhm::make_provider(how, vhm::make_registry(how), &resource, build_conf<sm::MeterConfig>(rules, def)).provider;
     auto reader   = std::make_shared<ExplicitReader>();
     provider->AddMetricReader(reader);
     std::vector<nostd::shared_ptr<mapi::Meter>> keep;
@@ -627,7 +656,7 @@ static std::string handle_sc(const std::vector<std::string> &t)
       nostd::shared_ptr<mapi::Meter> m;
       {
         vh::Exact n(reqs[k].name), v(reqs[k].ver), s(reqs[k].schema);
-        m = provider->GetMeter(sv(n), sv(v), sv(s));
+        m = provider->GetMeter(reqs[k].name.empty() && k % 2 == 1 ? nostd::string_view() : sv(n), sv(v), sv(s));
       }
       keep.push_back(m);
       std::string cname = "c" + std::to_string(k);
